@@ -1,6 +1,7 @@
 from __future__ import annotations
 
 import ast
+import builtins
 import copy
 import inspect
 import logging
@@ -648,7 +649,7 @@ def remap_by_types(
 
             # A method of one of python's own value types (`'abc'.strip()`): nobody declared
             # anything for it, so there are no defaults to fill in and no type to follow.
-            if getattr(obj_type, "__module__", None) == "builtins":
+            if getattr(builtins, getattr(obj_type, "__name__", ""), None) is obj_type:
                 self._found_types[node] = Any
                 return node
 
